@@ -790,15 +790,23 @@ struct Tr {
                     PT = BC->getType()->getPointerElementType();
                     break;
                   }
+            bool zero_fill = false;
+            if (id == Intrinsic::memset)
+              if (auto* CV = dyn_cast<ConstantInt>(CB->getArgOperand(1)))
+                zero_fill = CV->isZero();
             if (PT->isSized() && !PT->isIntegerTy(8) && (PT->isIntegerTy() || PT->isPointerTy() || PT->isFloatingPointTy() ||
-                                                         id != Intrinsic::memset))
+                                                         id != Intrinsic::memset || (zero_fill && (PT->isStructTy() || PT->isArrayTy()))))
               ET = PT;
           }
           std::string et = ET ? ty(ET) : "unsigned char";
           std::string hn = std::string("ll2c_") + base + "_" + sanitize(et);
           if (!mem_helpers.count(hn)) {
             std::string h = "static void " + hn + "(" + et + "* d, ";
-            if (id == Intrinsic::memset) {
+            if (id == Intrinsic::memset && ET && (ET->isStructTy() || ET->isArrayTy())) { // only reached for a zero fill: element-wise zero objects
+              h += "unsigned char c, unsigned long nb) { unsigned long n = nb / sizeof(" + et +
+                   "); __CPROVER_assert(n <= LL2C_MEMCAP, \"mem* length bound\"); static const " + et + " v = {0}; "
+                   "for (unsigned long i = 0; i < n && i < LL2C_MEMCAP; i++) d[i] = v; }\n";
+            } else if (id == Intrinsic::memset) {
               h += "unsigned char c, unsigned long nb) { unsigned long n = nb / sizeof(" + et +
                    "); __CPROVER_assert(n <= LL2C_MEMCAP, \"mem* length bound\"); " + et + " v; memset(&v, c, sizeof(v)); "
                    "for (unsigned long i = 0; i < n && i < LL2C_MEMCAP; i++) d[i] = v; }\n";
